@@ -211,7 +211,7 @@ type vfC19bKV struct {
 func (kv vfC19bKV) pair() (KVPair, *vfC19bVal) {
 	switch kv.Kind % 6 {
 	case 0:
-		return KVPair{Key: kv.Key, Val: kv.S}, &vfC19bVal{Kind: 's', Str: strings.ToValidUTF8(kv.S, "�")}
+		return KVPair{Key: kv.Key, Val: kv.S}, &vfC19bVal{Kind: 's', Str: kv.S}
 	case 1:
 		return KVPair{Key: kv.Key, Val: kv.I}, &vfC19bVal{Kind: 'n', Str: strconv.FormatInt(kv.I, 10)}
 	case 2:
@@ -224,7 +224,7 @@ func (kv vfC19bKV) pair() (KVPair, *vfC19bVal) {
 		return KVPair{Key: kv.Key, Val: int(int32(kv.I))}, &vfC19bVal{Kind: 'n', Str: strconv.FormatInt(int64(int32(kv.I)), 10)}
 	case 4:
 		return KVPair{Key: kv.Key, Val: map[string]any{"start": uint64(kv.I) >> 1, "ids": []string{kv.S}}},
-			&vfC19bVal{Kind: 'o', Keys: []string{"start", "ids"}, Vals: []*vfC19bVal{{Kind: 'n', Str: strconv.FormatUint(uint64(kv.I)>>1, 10)}, {Kind: 'a', Vals: []*vfC19bVal{{Kind: 's', Str: strings.ToValidUTF8(kv.S, "�")}}}}}
+			&vfC19bVal{Kind: 'o', Keys: []string{"start", "ids"}, Vals: []*vfC19bVal{{Kind: 'n', Str: strconv.FormatUint(uint64(kv.I)>>1, 10)}, {Kind: 'a', Vals: []*vfC19bVal{{Kind: 's', Str: kv.S}}}}}
 	default:
 		return KVPair{Key: kv.Key, Val: uint64(kv.I)}, &vfC19bVal{Kind: 'n', Str: strconv.FormatUint(uint64(kv.I), 10)}
 	}
@@ -245,6 +245,11 @@ func vfC19bCheck(t kit.TB, test string, b []byte, kvs []vfC19bKV, known bool, re
 	}
 	want := &vfC19bVal{Kind: 'o', Keys: append([]string{}, before.Keys...), Vals: append([]*vfC19bVal{}, before.Vals...)}
 	var pairs []KVPair
+	for _, kv := range kvs {
+		if !utf8.ValidString(kv.S) {
+			return false
+		}
+	}
 	seen := map[string]bool{}
 	for _, k := range before.Keys {
 		seen[k] = true
